@@ -50,6 +50,9 @@ def _ev(project):
     ev = sym.make_evaluator(project, PYR, [PYR + ".pos_parent", PYR + ".pos_children"])
     ev.static_len = _reducer_slots
     ev.unroll = True
+    ev.self_class = PYR + ".Pyramid"      # private helpers of the walk (e.g. a preparation pass moved into a method) are part of it
+    ev.no_inline |= {"_make_iter_reducer", "count_operations", "count_leaf_tiles", "count_live_tiles", "_walk_serial", "_walk_parallel",
+                     "_visit_leaves_serial", "_visit_leaves_parallel", "_generator", "walk", "visit_leaves", "subpyramid"}
     return ev
 
 
@@ -64,7 +67,7 @@ def run(run):
     run.assumptions += ["multiprocessing.Queue delivers each item to exactly one getter",
                         "Python integer bit operations"]
     run.undecided_clauses += ["level bookkeeping of PyramidReductionIterator for arbitrary filter shapes (runtime state)"]
-    for r, n in (("C01.R1", 5), ("C01.R2", 1), ("C01.R3", 2), ("C01.R4", 1), ("C01.R5", 1), ("C01.R6", 3), ("C01.R7", 2), ("C01.R8", 2)):
+    for r, n in (("C01.R1", 5), ("C01.R2", 1), ("C01.R3", 2), ("C01.R4", 1), ("C01.R5", 1), ("C01.R6", 3), ("C01.R7", 2), ("C01.R8", 2), ("C01.R9", 1)):
         run.floor(r, n)
     ev = _ev(project)
     _r1_algebra(run, ev)
@@ -73,6 +76,7 @@ def run(run):
     _r6_serial(run, ev)
     _r7_callback(run)
     _r8_subpyramid(run, ev)
+    _r9_stateless(run)
 
 
 # ---------------------------------------------------------------------------
@@ -179,6 +183,55 @@ def _key_kind(key, pos):
         if fields <= set(items):
             return "fields"
     return None
+
+
+def _analytic_seeding(run, f, e, r):
+    """A seeding put outside the reduction loop (closed-form seeding, e.g. for unfiltered pyramids): on a grid of
+    (depth, apex) every position it enqueues must lie at level depth-1 inside the sub-pyramid's block, and the block must
+    be covered (count).  A counterexample is a violation; a form that cannot be evaluated is UNDECIDED."""
+    arg = e.term[2][0] if e.term[2] else None
+    if arg is None or arg[0] != "nt" or arg[1] != "Pos":
+        run.undecided("C01.R3", f, e.node, "closed-form seeding enqueues %s, not a position built in place" % (show(arg)[:80] if arg else "nothing"), kind="seed-analytic-shape")
+        return
+    loops = {kk: it for kk, it, n in r.loops}
+    ks = [c[1] for c in e.pc if c[0] == "loop"]
+    rngs = [loops[kk] for kk in ks if loops.get(kk, ("",))[0] == "call" and loops[kk][1] == ("sym", "range") and len(loops[kk][2]) == 1]
+    if len(rngs) != len(ks) or not 1 <= len(rngs) <= 2:
+        run.undecided("C01.R3", f, e.node, "closed-form seeding is not a loop nest over range(...)", kind="seed-analytic-shape")
+        return
+    slf = ("sym", "self")
+    apex = ("attr", slf, "_apex")
+    n_t, x_t, y_t = arg[2]
+    for d in range(1, 6):
+        for na in range(0, d):
+            for ax, ay in ((0, 0), (2 ** na - 1, 0), (2 ** na - 1, 2 ** na - 1), (1 if na else 0, 0)):
+                env = {("attr", slf, "depth"): d, ("attr", apex, "n"): na, ("attr", apex, "x"): ax, ("attr", apex, "y"): ay}
+                B = 2 ** (d - 1 - na)
+                sizes = [teval(rg[2][0], env) for rg in rngs]
+                if any(s_ is UNKNOWN for s_ in sizes):
+                    run.undecided("C01.R3", f, e.node, "cannot evaluate the extent of the closed-form seeding loops", kind="seed-analytic-shape")
+                    return
+                if any(s_ != B for s_ in sizes):
+                    run.violated("C01.R3", f, e.node, "closed-form seeding: for depth %d and apex level %d the loops run over %s positions per axis, but the sub-pyramid "
+                                 "is %d tiles wide at level depth-1: tiles are never seeded (their parents are never released) or foreign tiles are" % (d, na, sizes, B),
+                                 kind="seed-analytic")
+                    return
+                for i in sorted({0, B - 1}):
+                    env2 = dict(env)
+                    for rg in rngs:
+                        env2[("elem", rg)] = i
+                    vals = [teval(t, env2) for t in (n_t, x_t, y_t)]
+                    if any(v is UNKNOWN for v in vals):
+                        run.undecided("C01.R3", f, e.node, "cannot evaluate the closed-form seed position %s" % show(arg)[:100], kind="seed-analytic-shape")
+                        return
+                    n_v, x_v, y_v = vals
+                    if n_v != d - 1 or not (ax * B <= x_v < (ax + 1) * B) or not (ay * B <= y_v < (ay + 1) * B):
+                        run.violated("C01.R3", f, e.node, "closed-form seeding: for depth %d and apex Pos(%d,%d,%d) it enqueues Pos(%s,%s,%s), which is not a tile of "
+                                     "level depth-1 inside the sub-pyramid (x in %d..%d, y in %d..%d): callbacks run for foreign tiles while the real ones are "
+                                     "never seeded" % (d, na, ax, ay, n_v, x_v, y_v, ax * B, (ax + 1) * B - 1, ay * B, (ay + 1) * B - 1), kind="seed-analytic")
+                        return
+    run.undecided("C01.R3", f, e.node, "closed-form seeding agrees with the sub-pyramid block on the sampled (depth, apex) grid; its equivalence with the reduction "
+                  "loop's liveness-based seeding for every pyramid is not established", kind="seed-analytic-unproven")
 
 
 def _key_collision(project, ev, key, parent, got):
@@ -376,9 +429,13 @@ def _dispatcher(run, ev):
         want_level = sym.cmp("Eq", ("attr", pos_t, "n"), _spec(ev, "s.depth - 1", s=("sym", "self")))
         # a leaf sits at n == depth, never at depth - 1
         given = ("op", "not", (("op", "and", (leaf_t, want_level)),))
+        analytic = [e for e in seed_puts if ("loop", k) not in e.pc]
+        seed_puts = [e for e in seed_puts if ("loop", k) in e.pc]
+        for e in analytic:
+            _analytic_seeding(run, f, e, r)
         if len(seed_puts) != 1:
-            run.violated("C01.R3", f, (seed_puts[0].node if seed_puts else lnode), "%d seeding puts on the ready queue before the workers start "
-                         "(expected exactly one, in the preparation loop)" % len(seed_puts), kind="seed-sites")
+            run.violated("C01.R3", f, (seed_puts[0].node if seed_puts else lnode), "%d seeding puts on the ready queue in the preparation loop "
+                         "(expected exactly one)" % len(seed_puts), kind="seed-sites")
         else:
             e = seed_puts[0]
             cond = boolalg.conj(_about(e.pc, el))
@@ -496,8 +553,9 @@ def _dispatcher(run, ev):
     early = [(pc, t, n) for pc, t, n in r.returns]
     for pc, t, n in early:
         conds = [c for c in pc if c[0] != "loop"]
-        ok = len(conds) == 1 and conds[0][1] and conds[0][0][0] == "op" and conds[0][0][1] == "cmp:Eq" \
-            and 0 in [num_value(x) for x in conds[0][0][2]] and any("result" in show(x) for x in conds[0][0][2])
+        totals = [dict(x.term[3]).get("total") for x in r.events if x.kind in ("call", "with") and x.term[0] == "call" and show(x.term[1]) == "progress_bar"]
+        totals = [t_ for t_ in totals if t_ is not None]
+        ok = bool(totals) and boolalg.equiv(boolalg.conj(conds), sym.cmp("Eq", totals[0], sym.ZERO)) is True
         if not ok:
             run.violated("C01.R4", f, n, "early return under %s (only `total == 0` may skip the walk)" % [show(c)[:100] for c, p in conds],
                          kind="early-return")
@@ -569,6 +627,18 @@ def _r5_worker(run):
             if item and not (c.args and isinstance(c.args[0], ast.Name) and c.args[0].id == item):
                 bad.append(("wrong-item", "%s is called with %s, not with the received position `%s`" % (
                     ast.unparse(c.func), ast.unparse(c.args[0]) if c.args else "nothing", item)))
+    # the completion report is unconditional: a timed / non-blocking put whose failure is swallowed loses the report
+    for pn_, pc_ in puts:
+        info = common.put_call_info(pc_, None)
+        if info in ("timeout", "nonblocking"):
+            for s_, blk in enclosing_stmts(f.node, pn_.ast):
+                if isinstance(s_, ast.Try) and blk == "body":
+                    for h_ in s_.handlers:
+                        hn_ = [x for x in cfg.nodes if x.kind == "except" and x.ast is h_]
+                        if hn_ and (cfg.exit.id in cfg.reachable(hn_[0].id) or (lh is not None and lh.id in cfg.reachable(hn_[0].id))):
+                            bad.append(("report-dropped", "the completion report is a %s put whose failure (handler at line %d) is swallowed: the tile was processed "
+                                        "but the dispatcher never learns it, so its parent is never released and the walk does not return" % (
+                                            "timed" if info == "timeout" else "non-blocking", h_.lineno)))
     if bad:
         seen = set()
         for kind, msg in bad:
@@ -700,6 +770,47 @@ def _r7_callback(run):
         else:
             run.violated("C01.R7", st[0].func, st[0].proc_call, "the walk callback is not among the worker's arguments / not called by the worker",
                          kind="callback-to-worker")
+
+
+def _r9_stateless(run):
+    """A walk leaves nothing behind on the Pyramid object: what the second walk of one object does cannot depend on the first."""
+    project = run.project
+    root = project.fn(PYR + ".Pyramid.walk")
+    seen = {root.qual: root}
+    todo = [root]
+    while todo:
+        g = todo.pop()
+        for c in own_calls(g.node):
+            t = common.resolve_callee(project, g, c)
+            if t is not None and t.cls is not None and t.cls.name == "Pyramid" and t.qual not in seen and not t.name.startswith("new_"):
+                seen[t.qual] = t
+                todo.append(t)
+    bad = []
+    for q, g in sorted(seen.items()):
+        run.note_func(g)
+        for n in own_nodes(g.node):
+            tg = []
+            if isinstance(n, ast.Assign):
+                tg = n.targets
+            elif isinstance(n, (ast.AugAssign, ast.AnnAssign)):
+                tg = [n.target]
+            for t_ in tg:
+                for x in ast.walk(t_):
+                    if isinstance(x, ast.Attribute) and isinstance(x.value, ast.Name) and x.value.id == "self" and isinstance(x.ctx, ast.Store):
+                        bad.append((g, n, "self.%s" % x.attr))
+                    if isinstance(x, ast.Subscript) and isinstance(x.ctx, ast.Store):
+                        b = x.value
+                        while isinstance(b, (ast.Subscript, ast.Attribute)):
+                            if isinstance(b, ast.Attribute) and isinstance(b.value, ast.Name) and b.value.id == "self":
+                                bad.append((g, n, "self.%s[...]" % b.attr))
+                                break
+                            b = b.value
+    if bad:
+        g, n, what = bad[0]
+        run.violated("C01.R9", g, n, "%s stores into %s during a walk: state that survives on the pyramid object makes a later walk of the same object depend on "
+                     "the earlier one (e.g. a remembered readiness table that the dispatcher has already consumed)" % (g.short, what), kind="walk-keeps-state")
+    else:
+        run.holds("C01.R9", root, None, "nothing reachable from Pyramid.walk stores into the pyramid object (%d methods)" % len(seen), methods=len(seen))
 
 
 def _r8_subpyramid(run, ev):
